@@ -185,7 +185,8 @@ def run_split(item, res):
         text = models.spec_text(sp)
         spn = models.norm(sp)
         ode = drive.load(text)
-        comps = sorted({(spn.get("comp") or {}).get(n, "") for n, _ in spn["states"] + spn["params"] + spn["assigns"]})
+        from checks import c13
+        comps = sorted({t_ for n, _ in spn["states"] + spn["params"] + spn["assigns"] for t_ in c13.tags((spn.get("comp") or {}).get(n, ""))})
         for cname in comps:
             comp = ode.get_component(cname)
             parts = {"A": comp.to_ode(), "B": ode - comp}
